@@ -41,8 +41,9 @@ class LoopSpec:
     ghost = None
     var = None
 
-    def __init__(self, inv, var=None, ghost=None, havoc=None, for_guard=None, for_item=None, step=None):
+    def __init__(self, inv, var=None, ghost=None, havoc=None, for_guard=None, for_item=None, step=None, update=None):
         self.inv = inv
+        self.update = update              # ghost update at the end of each iteration: update(it, pre_env, env, g)
         self.step = step                  # two-state claims about one iteration: step(it, pre_env, env, g) -> dict
         self.var = var
         self.ghost = ghost
